@@ -113,6 +113,20 @@ def Spaced (E : Link.Trace) (l : List Step) : Prop :=
   ∀ pre st post, l = pre ++ st :: post → ∀ s ∈ adds lower N st,
     ∀ x ∈ Link.unregs (E ++ events lower N pre), x.2 = s → x.1 < st.t - 350
 
+/-- the liveness half of the event-loop axiom (DESIGN §4.7 `WFSched`) for this machine, which `Host.run` itself does not
+state (it accepts every list of enabled blocks): a broadcast task, or a close sequence, that is pending after a step and due
+within the window is the one executed by a later step — at its due time, since a `task` / `allStep` block runs at its `due` -/
+def Fair (steps : List Step) (endT : Int) : Prop :=
+  (∀ pre st post, steps = pre ++ st :: post → ∀ τ ∈ st.post.tasks, τ.due ≤ endT →
+      ∃ post1 st' post2, post = post1 ++ st' :: post2 ∧ st'.b = .task τ.oid τ.ttl τ.addresses τ.due ∧
+        findTask st'.pre.tasks τ.oid τ.ttl τ.addresses τ.due = some τ)
+  ∧ (∀ pre st post, steps = pre ++ st :: post → ∀ a ∈ st.post.closing, a.due ≤ endT →
+      ∃ post1 st' post2, post = post1 ++ st' :: post2 ∧ st'.b = .allStep a.due ∧
+        st'.pre.closing.find? (fun x => x.due == a.due) = some a)
+
+/-- the instance is not closed (`_close`) before the end of the run: `async_send` is not yet a no-op -/
+def Open (steps : List Step) : Prop := ∀ st ∈ steps, st.pre.done = false
+
 end
 
 end Zc.Bridge
